@@ -526,7 +526,7 @@ def discover():
     return dict(sorted(found.items())), failed
 
 
-def build_variant(variant, tmp, key):
+def build_variant(variant, tmp):
     shape = variant.get("shape", (6, 5))
     det = make_detector(variant["kind"], shape[0], shape[1], variant.get("temperature"), variant.get("times", (1.0,)))
     kwargs = dict(variant["kwargs"])
@@ -554,7 +554,7 @@ def data_file(what, tmp, shape):
 
 def invoke(fn, variant, tmp, seed, prior, overrides=None, fault=False, prepared=True, limit=120.0):
     """One monitored call: returns dict(snapshot, before, after, exc, injected)."""
-    det, kwargs = build_variant(variant, tmp, 0)
+    det, kwargs = build_variant(variant, tmp)
     if prepared:
         prepare(det, variant["buckets"])
     for k, v in (overrides or {}).items():
@@ -709,8 +709,6 @@ def contract(rec, index, qual, short, fn, recipe, seeds, rng, tier, limit) -> bo
                 if "filename" in overrides and "filename" not in (variant.get("files") or {}):
                     continue
                 ov = dict(overrides)
-                if ov.get("filename") == "qe_bad":
-                    pass
                 e = invoke(fn, variant, tmp, seed, (rng.randint(0, 2), rng.randint(0, 2**31)), overrides=ov, prepared=prepared, limit=limit)
                 if e["exc"] is None:
                     rec.count("model_invalid_input_accepted")
